@@ -90,7 +90,13 @@ def run(chk):
             add({"op": "neighbor_numbers", "xs": withdup, "ref": ref, "A": alpha, "ham": ham},
                 lambda s=withdup, nb=nb, ref=ref: [int(v) for v in ds.calculate_neighbor_numbers(s, reference=set(ref), neighborhood=nb)],
                 list, "numbers")
+            for empty in (set(),):      # the property quantifies over reference SETS (a list raises TypeError in `set & list`)
+                add({"op": "neighbor_numbers", "xs": withdup, "ref": [], "A": alpha, "ham": ham},
+                    lambda s=withdup, nb=nb, empty=empty: [int(v) for v in ds.calculate_neighbor_numbers(s, reference=empty, neighborhood=nb)],
+                    list, "numbers")
             x = rng.choice(pool)
+            add({"op": "isdist1", "x": x, "ref": [], "A": alpha, "ham": ham},
+                lambda x=x, nb=nb: bool(ds.isdist1(x, set(), nb)), bool, "isdist")
             add({"op": "isdist1", "x": x, "ref": ref, "A": alpha, "ham": ham},
                 lambda x=x, nb=nb, ref=ref: bool(ds.isdist1(x, set(ref), nb)), bool, "isdist")
     # --- nndist_hamming and the nested enumerations (fixed 20-letter alphabet in the code)
